@@ -64,6 +64,12 @@ def ws(l):
 
 def render(ops, obs):
     res, m1, m2 = obs
+    # the model's memory holds at most one entry per write of the history: a memory with more entries differs from it whatever
+    # they are, and is cut just beyond that bound so that an implementation that leaks state from one box (or one history)
+    # into another yields a comparison, not a term Coq cannot read
+    bound = sum(1 if o[0] == "W" else len(o[1] or []) if o[0] == "U" else 0 for o in ops) + 2
+    m1, m2 = m1[:bound], m2[:bound + 1]
+    res = [r if r[0] != "RU" else ("RU", r[1][:bound]) for r in res]
     rops = L(
         f"W {P(o[1])} {zv(o[2])}" if o[0] == "W" else (f"R {P(o[1])}" if o[0] == "R" else f"U {ws(o[1] or [])}")
         for o in ops
